@@ -187,7 +187,7 @@ func corrSimple(c *vh.Ctx) {
 	for i, k := range cases {
 		real := trees[i]
 		a := answers[2*i]
-		if real == "skip" || a == "err unsupported" || real == "reject-shape" {
+		if real == "skip" || a == "err unsupported" || a == "bad-token" || real == "reject-shape" {
 			c.Hit("simple-corr-skipped:" + k.class)
 			continue
 		}
